@@ -140,6 +140,27 @@ def _canaries(vcs):
     return out
 
 
+def _lifetime_obligation(prog, q):
+    """Syntactic lifetime obligation over the function AND its explicit instantiations (where dependent container types are
+    resolved): no non-owning py::handle - a variable, or an element pushed into a std::vector<py::handle> - is copied from a
+    temporary that solely owns a new Python object (the markers are computed by ocv/cxx/ast.py from the unreduced clang AST)."""
+    hits = []
+
+    def walk(n):
+        yield n
+        for c in n.c:
+            yield from walk(c)
+    for k, fn in prog.functions.items():
+        if k == q or k.startswith(q + '<'):
+            for d in walk(fn):
+                if d.get('dangling') and (d.get('handle_push') or d.get('handle_var')):
+                    hits.append(f"L{d.get('line')} in {k}: {'pushed handle' if d.get('handle_push') else 'handle variable ' + str(d.name)} "
+                                f"is copied from the temporary {d.get('dangling')}")
+    return Obligation(id=f'{q}::II::lifetime:no-handle-outlives-a-temporary-that-solely-owns-its-object', function=q, cls='II',
+                      status='failed' if hits else 'discharged', backend='syntactic(lifetime)',
+                      detail='; '.join(sorted(set(hits))[:4]))
+
+
 def _verify(functions: list[str], budgets=(8, 30, 60), verbose=False):
     prog = load_program()
     contracts = load_contracts()
@@ -186,6 +207,7 @@ def _verify(functions: list[str], budgets=(8, 30, 60), verbose=False):
         all_vcs += eng.vcs
         for fn, normal in eng.covers:
             covers[fn] = normal
+        errors.append(_lifetime_obligation(prog, q))
     t_gen = time.time() - t0
     obs = discharge(all_vcs, budgets)
     obs += _canaries(all_vcs)
